@@ -19,6 +19,7 @@ RULE = ("series of 2..5 points (all grids G(8,m) for small m, value vectors from
 ASSUMPTIONS = ["tolerance 1e-9 relative to max|y| (series also tried on a 2.5e6 baseline and at magnitude 1e-9, and with an abscissa equal to 0.0 inside the grid)", "default fixed points (closest sample to each reference abscissa)",
                "the last value of a series that was not extended by append_one_sample is an end point, not an interval average"]
 ANCHORS = {"rfa.py": [(70, 90)], "weaver.py": [(73, 76), (470, 514)], "match.py": [(105, 110)], "process.py": [(300, 321)]}
+FORMS_HARNESSES = "all"
 EXPLANATION = "round-trip oracle evaluated on every element of a bounded input/configuration lattice"
 
 DATASETS = ["audio", "cloud", "file_sharing", "fixed_social_media", "gaming", "marketplace", "measurements", "messaging",
